@@ -3,6 +3,7 @@ package main
 import (
 	"fmt"
 	"go/constant"
+	"sort"
 	"go/types"
 	"strings"
 
@@ -131,6 +132,18 @@ func (s *Sess) call(in ssa.CallInstruction, st *State) []Val {
 				continue
 			}
 			s.oblige(st, "pre", fmt.Sprintf("pre.%s.%s@%d", shortName(name), labelOr(r.Label, i), s.callOrd(in)), f, in.Pos(), "precondition of "+name+": "+r.Src)
+		}
+		if callee != nil && callee == s.fn && ct.Decreases != nil && ct.Decreases.E != nil {
+			// direct recursion: the measure of the recursive call is below the measure at entry
+			me, err1 := s.funcEnv(s.entry, s.entry, nil).evalVal(ct.Decreases.E)
+			mc, err2 := ce.evalVal(ct.Decreases.E)
+			if err1 != nil || err2 != nil {
+				s.unsupp("decreases of %s: %v %v", name, err1, err2)
+			} else {
+				s.oblige(st, "dec", fmt.Sprintf("rec.dec@%d", s.callOrd(in)), fmt.Sprintf("(and (<= 0 %s) (< %s %s))", me.t, mc.t, me.t), in.Pos(), "recursive call decreases the measure: "+ct.Decreases.Src)
+			}
+		} else if callee != nil && callee == s.fn {
+			s.warnings = append(s.warnings, "recursive call without decreases: termination not checked")
 		}
 		if ct.Pure {
 			mkResults(!ct.ReadsHeap, name)
@@ -631,4 +644,40 @@ func constantStr(c *ssa.Const) string {
 		return ""
 	}
 	return constant.StringVal(c.Value)
+}
+
+// checkAssertsAtReturn evaluates `assert at return#k` clauses (k-th return statement in source order).
+func (s *Sess) checkAssertsAtReturn(ret *ssa.Return, st *State) {
+	if s.ct == nil || len(s.ct.Asserts) == 0 {
+		return
+	}
+	var rets []*ssa.Return
+	for _, b := range s.fn.Blocks {
+		for _, in := range b.Instrs {
+			if r, ok := in.(*ssa.Return); ok {
+				rets = append(rets, r)
+			}
+		}
+	}
+	sort.Slice(rets, func(i, j int) bool { return rets[i].Pos() < rets[j].Pos() })
+	ord := -1
+	for i, r := range rets {
+		if r == ret {
+			ord = i
+		}
+	}
+	for _, a := range s.ct.Asserts {
+		if a.Callee != "return" || a.Ord != ord || a.C.E == nil {
+			continue
+		}
+		c := s.funcEnv(st, s.entry, nil)
+		c.lookup = func(n string) (Val, bool) { return s.resolveLocalAt(ret, n, st) }
+		f, err := c.evalBool(a.C.E)
+		if err != nil {
+			s.unsupp("assert at return#%d %q: %v", a.Ord, a.C.Src, err)
+			continue
+		}
+		s.oblige(st, "assert", "assert."+labelOr(a.C.Label, a.Ord), f, ret.Pos(), a.C.Src)
+		a.seen = true
+	}
 }
